@@ -41,7 +41,7 @@ Lines(f) ==
   \o << <<"blank">>, <<"close">> >>
 
 File0(n) == [id |-> n, kind |-> "table", color |-> FALSE, hf |-> FALSE, pages |-> 1, missing |-> FALSE, land |-> FALSE, tail |-> "none"]
-Init == files = <<>> /\ d = 0 /\ phase = "pick" /\ i = 1 /\ out = <<>> /\ wrote = FALSE /\ err = "none" /\ env = [alias |-> FALSE, rerun |-> FALSE, stale |-> FALSE, twin |-> FALSE, prior |-> "none"]
+Init == files = <<>> /\ d = 0 /\ phase = "pick" /\ i = 1 /\ out = <<>> /\ wrote = FALSE /\ err = "none" /\ env = [alias |-> FALSE, rerun |-> FALSE, stale |-> FALSE, twin |-> FALSE, prior |-> "none", samepath |-> FALSE]
 \* build the argument list one file (5 picks) at a time
 Pick == /\ phase = "pick"
         /\ \/ (/\ Len(files) < MaxFiles /\ d = 0
@@ -55,8 +55,10 @@ Pick == /\ phase = "pick"
                \* create its output; "other" = a successful call on another argument list.  A call starts from nothing either way.
                /\ \E a \in EnvSet, b \in EnvSet, st \in EnvSet, tw \in EnvSet :
                    \E pr \in (IF a \/ b \/ st \/ tw \/ Len(files) = 0 THEN {"none"} ELSE PriorSet) :
+                   \* samepath: the LAST argument is the very path of the first one (a divider page listed twice)
+                   \E sp \in (IF a \/ b \/ st \/ tw \/ pr # "none" \/ Len(files) < 2 THEN {FALSE} ELSE EnvSet) :
                     env' = [alias |-> a /\ Len(files) >= 1, rerun |-> b /\ Len(files) >= 1, stale |-> st /\ ~a /\ Len(files) >= 1, twin |-> tw /\ Len(files) >= 2,
-                            prior |-> pr])
+                            prior |-> pr, samepath |-> sp])
         /\ UNCHANGED <<i, out, wrote, err>>
 CheckExists == /\ phase = "check"
                /\ IF Len(files) = 0 THEN phase' = "done" /\ err' = err
@@ -68,7 +70,7 @@ LastFont(ls) == LET S == {j \in 1..Len(ls) : IsFontLine(Cls(ls[j]))} IN IF S = {
 StartIdx(ls, n) == IF n = 1 THEN 1 ELSE (IF LastFont(ls) = 0 THEN 1 ELSE LastFont(ls) + 2)
 EndIdx(ls, n) == IF n < Len(files) /\ Cls(ls[Len(ls)]) = "close" THEN Len(ls) - 1 ELSE Len(ls)
 \* the file actually read at position j (a twin of the first input at the last position when env.twin)
-Eff(j) == IF env.twin /\ j = Len(files) THEN files[1] ELSE files[j]
+Eff(j) == IF (env.twin \/ env.samepath) /\ j = Len(files) THEN files[1] ELSE files[j]
 AppendPart == /\ phase = "parts" /\ i <= Len(files)
               /\ LET ls == Lines(Eff(i)) IN
                    out' = out \o SubSeq(ls, StartIdx(ls, i), EndIdx(ls, i))
